@@ -177,7 +177,11 @@ def run_main(ctx, cases, known_shapes, stream="main"):
             ctx.tally(unsupported=str(err)[:40])
             continue
         except Exception as err:  # pylint: disable=broad-except
-            # parser / mapping refused the generated input: not a C02 verdict
+            # the generator only writes valid force fields (the unchanged tree reads and applies all of them):
+            # a crash of parser / mapping / link application means no link of this input is applied at all
+            ctx.oracle_fail("pipeline-raises", "load_ff_library / MapToMolecule / ApplyLinks raised %s: %s on a valid force "
+                            "field and residue graph %s" % (type(err).__name__, str(err)[:200], case["graph"]),
+                            dict(stream=stream, case=case))
             ctx.tally(real_code_raised=type(err).__name__)
             continue
         done.append((case, inp, impl))
@@ -280,6 +284,8 @@ def run_dangling(ctx, count):
             out_mixed_b = run_real(dict(blocks=explicit_blocks + [other], links=equivalent_links(block), graph=mixed))[1]
             out_chain_b = run_real(dict(blocks=explicit_blocks, links=equivalent_links(block), graph=chain))[1]
         except Exception as err:  # pylint: disable=broad-except
+            ctx.oracle_fail("pipeline-raises", "polyply .itp block with dangling interactions: parser / pipeline raised %s: %s"
+                            % (type(err).__name__, str(err)[:200]), dict(stream="dangling", block=block, other=other, chain=chain, mixed=mixed))
             ctx.tally(dangling_real_code_raised=type(err).__name__)
             continue
         reqs.append(dict(op="dangling", names=names, ixns=flat_ixns(block)))
